@@ -6,6 +6,7 @@ import Nstd.Sync.LemmasThr
 import Nstd.Sync.LemmasRun
 import Nstd.Sync.LemmasScenario
 import Nstd.Sync.LiveSem
+import Nstd.Sync.LiveSemClosed
 import Nstd.Sync.LiveSignal
 import Nstd.Sync.LiveMonitor
 import Nstd.Sync.WhatIf
@@ -444,6 +445,30 @@ example : ∃ s, Monitor.Reach 999999999 0 s ∧ s.flag = true ∧ (∃ d, s.pc 
   refine ⟨_, Monitor.reach_runActs [(1, .call .lock), (1, .run 0), (1, .call (.twait 1)), (1, .run 0), (1, .tick 1000000),
     (1, .run 1), (2, .call .set), (2, .run 0), (2, .run 0), (2, .run 0)] (.init false) rfl, rfl, ⟨_, rfl⟩, rfl⟩
 
+/-- Conservation for the Monitor (every reachable state, both orders of set()): the successful waits plus the pending flag
+    are exactly the set() calls that RAISED the flag (found it clear), and those are at most all set() calls.  A set() on
+    a flag that is already raised adds nothing — the flag is binary, see the next theorem. -/
+theorem monitor_conservation {now spur : Nat} {s : Monitor.St} (h : Monitor.Reach now spur s) :
+    s.succ + (if s.flag then 1 else 0) = s.raised ∧ s.raised ≤ s.sets :=
+  (Monitor.inv_reach h).cons
+
+/-- "n set() calls after n waiters have taken the monitor release n waiters" is NOT a contract of Monitor and is false:
+    the flag is binary.  Two waiters are blocked, two set() calls complete (each wakes one of them), the first woken waiter
+    consumes the flag and returns true, the second finds it clear and goes back to sleep: one success for two set() calls,
+    everybody else idle, the monitor free — a reachable state.  What holds is `monitor_conservation` (per RAISING set())
+    and, per set() that leaves the flag raised with a waiter blocked, `monitor_set_eventually_releases_a_waiter`. -/
+theorem monitor_two_sets_may_release_only_one_waiter :
+    ∃ s, Monitor.Reach 0 0 s ∧ s.sets = 2 ∧ s.succ = 1 ∧ s.flag = false ∧ s.m = none ∧ s.waiters = [2] ∧
+      s.pc 2 = .wBlocked none false ∧ s.pc 1 = .idle ∧ s.pc 3 = .idle ∧ s.pc 4 = .idle := by
+  refine ⟨_, Monitor.reach_runActs
+    [(1, .call .lock), (1, .run 0), (1, .call .wait), (1, .run 0),
+     (2, .call .lock), (2, .run 0), (2, .call .wait), (2, .run 0),
+     (3, .call .set), (3, .run 0), (3, .run 0), (3, .run 0),
+     (4, .call .set), (4, .run 0), (4, .run 0), (4, .run 0),
+     (1, .run 0), (1, .call .unlock), (1, .run 0),
+     (2, .run 0), (2, .run 0)] (.init false) rfl, ?_, ?_, ?_, ?_, ?_, ?_, ?_, ?_, ?_⟩ <;> rfl
+
+
 /-- WHAT-IF (not the assumed semantics): if the POSIX layer let a timed-out waiter consume a concurrent signal,
     `Monitor::wait(timeout)` — which returns false on ETIMEDOUT without looking at the flag — would lose the wake-up:
     after the schedule `lossySchedule` thread 1 is blocked in wait() although a set() stored the flag after it had
@@ -760,6 +785,21 @@ theorem sem_waiter_returns_if_enough_signals {c now e : Nat} (r : Run Sem.St Sem
       ((r.st m).ret u = some (.bool true) ∨ ((r.st n).pc u = .wait ∧ (r.st m).ret u = some (.bool false))) :=
   Sem.waiter_returns_if_enough_signals r h0 hwf n u hw henough
 
+/-- k waiters, k signals ⇒ all return (closed system, weak fairness only).  From `n` on no thread begins a new wait / tryWait /
+    wait(timeout) (anybody may still signal) and all threads inside such a call at `n` belong to the list `W`; at `m0` the
+    count at `n` plus the signals since `n` have reached `|W|`.  Then every thread still waiting at `m0` returns, and returns
+    TRUE (unless an untimed wait() is hit by EINTR): each waiter succeeds at most once, so the others cannot starve it.
+    (A waiter that is not waiting any more at `m0` has returned already.)  Per-thread success accounting: `Sem.closed_run`. -/
+theorem sem_closed_system_all_waiters_return {c now e : Nat} (r : Run Sem.St Sem.Op Sem.step) (h0 : Sem.Reach c now e (r.st 0))
+    (hwf : WeakFair r Sem.prog) (n : Nat) (W : List Tid)
+    (hclosed : ∀ m, n ≤ m → ∀ op, r.act m = .call op → op = .signal)
+    (hW : ∀ t, Sem.waiting ((r.st n).pc t) = true → t ∈ W)
+    (m0 : Nat) (hm0 : n ≤ m0) (henough : W.length + (r.st n).posts ≤ (r.st n).count + (r.st m0).posts)
+    (u : Tid) (hu : Sem.waiting ((r.st m0).pc u) = true) :
+    ∃ m, m0 ≤ m ∧ (r.st m).pc u = .idle ∧
+      ((r.st m).ret u = some (.bool true) ∨ ((r.st m0).pc u = .wait ∧ (r.st m).ret u = some (.bool false))) :=
+  Sem.closed_system_all_waiters_return r h0 hwf n W hclosed hW m0 hm0 henough u hu
+
 /-- A set() issued after a waiter has taken the monitor eventually releases a waiter (liveness): `u` is blocked in
     the untimed wait(), a set() has stored the flag since `u` joined the wait set and the flag is still set.  On every
     run that is weakly fair, whose monitor mutex is starvation-free and on which the clients do not keep the monitor
@@ -804,6 +844,23 @@ example : Sem.Reach 2 0 0 (Sem.demoRun.st 0) ∧ Sem.waiting ((Sem.demoRun.st 1)
     have e : (Sem.demoRun.st (k + 2)).pc 1 = Sem.d2.pc 1 := rfl
     rw [e] at h
     exact absurd h (by decide)
+
+/-- the hypotheses of `sem_closed_system_all_waiters_return` on the demo run: closed from 1 on, W = [1], enough at 1 -/
+example : (∀ m, 1 ≤ m → ∀ op, Sem.demoRun.act m = .call op → op = .signal) ∧
+    (∀ t, Sem.waiting ((Sem.demoRun.st 1).pc t) = true → t ∈ [1]) ∧
+    [1].length + (Sem.demoRun.st 1).posts ≤ (Sem.demoRun.st 1).count + (Sem.demoRun.st 1).posts := by
+  refine ⟨?_, ?_, by decide⟩
+  · intro m hm op h
+    match m with
+    | 1 => cases h
+    | k + 2 => cases h
+  · intro t ht
+    by_cases h1 : t = 1
+    · simp [h1]
+    · have : (Sem.demoRun.st 1).pc t = .idle := by
+        show Sem.d1.pc t = .idle
+        simp [Sem.d1, Sem.d0, Sem.step, Sem.init, Option.getD, upd, h1]
+      rw [this] at ht; cases ht
 
 example : Signal.inWait ((Signal.demoRun.st 7).pc 1) = some none ∧ (Signal.demoRun.st 7).pc 1 = .wRelock none false := ⟨rfl, rfl⟩
 
